@@ -138,7 +138,9 @@ def check(ctx, replay=None):
     if not th:
         jobs.append(dict(module="Loader", cfg=lf.mc_cfg(threads="{t1, t2}", maxloads=2, polids="{0, 1}"), name="Loader_2t_2l_deny", timeout=3000))
     if th:
-        jobs.append(dict(module="Loader", cfg=lf.mc_cfg(threads="{t1, t2, t3, t4}", maxloads=3), name="Loader_4t_3l", timeout=3000))
+        # (measured: 3 threads x 3 loads with the prctl-denying environment 13.7 M distinct states, 4 x 3 without it 21.2 M - minutes each;
+        #  4 x 3 with it does not finish within the hour, 4 x 2 with it has 28.6 M)
+        jobs.append(dict(module="Loader", cfg=lf.mc_cfg(threads="{t1, t2, t3, t4}", maxloads=3, allow_deny=False), name="Loader_4t_3l", timeout=3000))
     # 2. histories for replay: the full alphabet without, and a reduced alphabet with, an enclosing filter that blocks seccomp(2)
     jobs.append(dict(module="LoaderGen", cfg=lf.gen_cfg("{pool, t1, t2}", 3 if th else 2, FLAGS, '{"valid", "invalid", "oversize"}', "{t1, t2}", False),
                      name="LoaderGen", timeout=3000))
